@@ -235,7 +235,12 @@ func cmpL1(got []obs, want []ref.Delivery, checkTime bool) string {
 		}
 		if checkTime {
 			ts := int64(got[i].ts)
-			if ts < want[i].Start || ts > want[i].Time {
+			if want[i].Time > 1<<31-1 || want[i].Start > 1<<31-1 {
+				// the driver's clock is an int32 millisecond counter: beyond 2^31 it wraps, compare modulo 2^32
+				if got[i].ts != int32(want[i].Time) && got[i].ts != int32(want[i].Start) {
+					return fmt.Sprintf("delivery %d (%s): time stamp %d, completing chunk arrived at %d (mod 2^32: %d)", i, mon.Hex(n), ts, want[i].Time, int32(want[i].Time))
+				}
+			} else if ts < want[i].Start || ts > want[i].Time {
 				return fmt.Sprintf("delivery %d (%s): time stamp %d, completing chunk arrived at %d (first byte at %d)", i, mon.Hex(n), ts, want[i].Time, want[i].Start)
 			}
 		}
